@@ -15,10 +15,11 @@ import copy
 import json
 import os
 
-FEATS = ("const", "setc", "tup", "dflt", "kwd", "lam")
+FEATS = ("const", "setc", "tup", "dflt", "kwd", "lam", "nest")
+NESTS = (["alpha", "beta", "gamma", "delta"], ["alpha", "beta", "gamma", "epsilon"], ["north", "south", "east", "west", "up"])
 
 
-def gen_prog(rng, nm=None, nh=None, nv=None, cyc_rate=0.15, hidden_rate=0.08, aux_rate=0.3, explicit_rate=0.15, chain_rate=0.6, lambda_rate=0.25):
+def gen_prog(rng, nm=None, nh=None, nv=None, cyc_rate=0.15, hidden_rate=0.08, aux_rate=0.3, explicit_rate=0.15, chain_rate=0.6, lambda_rate=0.25, twin_rate=0.3):
     nm = nm or rng.randint(2, 4)
     nh = rng.randint(0, 3) if nh is None else nh
     nv = rng.randint(0, 3) if nv is None else nv
@@ -33,7 +34,7 @@ def gen_prog(rng, nm=None, nh=None, nv=None, cyc_rate=0.15, hidden_rate=0.08, au
         d = dict(kind="memento" if n[0] == "m" else "plain", where=where, const=rng.randint(0, 9),
                  setc=rng.choice([None, None, ["a", "b"], ["alpha", "beta", "gamma", "delta"]]),
                  tup=rng.choice([None, [1, 2], [3]]), dflt=rng.choice([None, None, 1, 2]), kwd=rng.choice([None, None, 5]),
-                 lam=rng.choice([None, 0, 1]), refs=[])
+                 lam=rng.choice([None, 0, 1]), nest=rng.choice([None, None, None, 0, 2]), refs=[])
         if d["kind"] == "memento":
             d["explicit"] = ("e%d" % rng.randint(1, 3)) if rng.random() < explicit_rate else None
         else:
@@ -71,7 +72,19 @@ def gen_prog(rng, nm=None, nh=None, nv=None, cyc_rate=0.15, hidden_rate=0.08, au
         if d["kind"] == "plain" and not d.get("wrapped") and rng.random() < lambda_rate:
             # an anonymous helper bound to a module-level name: `h1 = lambda x: [...]` (all lambdas share one __qualname__)
             d["aslambda"] = True
-            d.update(setc=None, tup=None, dflt=None, kwd=None, lam=None)
+            d.update(setc=None, tup=None, dflt=None, kwd=None, lam=None, nest=None)
+    # a variable whose name differs from another one only in case (rule keys that tie in a case-insensitive order)
+    for n in [x for x in names if x[0] == "V"]:
+        if rng.random() < twin_rate and defs[n]["value"] not in ("UNSUPPORTED",):
+            tw = "v" + n[1:]
+            users = [x for x in fn_names if any(r[0] == n for r in defs[x]["refs"])]
+            if not users:
+                continue
+            defs[tw] = dict(kind="var", where=defs[n]["where"], value=rng.choice([v for v in [11, 12, "tw", [3, 4]] if v != defs[n]["value"]]))
+            names = [tw] + names
+            for x in users:
+                form = next(r[1] for r in defs[x]["refs"] if r[0] == n)
+                defs[x]["refs"].append([tw, form if form in ("bare", "chained") else "bare"])
     return dict(defs=defs, order=names)
 
 
@@ -91,8 +104,8 @@ def edits(rng, prog, n=1):
                                                  "DICT_FROM_SET0", "DICT_FROM_SET1"] if v != old])
             log.append(["var", name])
             continue
-        kind = rng.choice(["const", "setc", "tup", "dflt", "kwd", "lam", "ref+", "ref-", "explicit"])
-        if d.get("aslambda") and kind in ("setc", "tup", "dflt", "kwd", "lam"):
+        kind = rng.choice(["const", "setc", "tup", "dflt", "kwd", "lam", "nest", "ref+", "ref-", "explicit"])
+        if d.get("aslambda") and kind in ("setc", "tup", "dflt", "kwd", "lam", "nest"):
             kind = "const"                # a lambda helper renders its constant and references only
         if kind == "const":
             d["const"] += 1
@@ -107,6 +120,8 @@ def edits(rng, prog, n=1):
             d["kwd"] = rng.choice([x for x in [None, 5, 6] if x != d["kwd"]])
         elif kind == "lam":
             d["lam"] = rng.choice([x for x in [None, 0, 1, 2] if x != d["lam"]])
+        elif kind == "nest":
+            d["nest"] = rng.choice([x for x in [None, 0, 1, 2] if x != d.get("nest")])
         elif kind == "ref+":
             idx = p["order"].index(name)
             cands = [x for x in p["order"][:idx] if [x, "bare"] not in d["refs"]
@@ -182,6 +197,9 @@ def render_def(name, d, prog, pkg):
     params = "x"
     if d["dflt"] is not None:
         params += ", y=%d" % d["dflt"]
+    if d.get("nest") is not None:
+        # a default value that holds a set two levels down (its repr depends on hash randomisation)
+        params += ", w=((\"n\", frozenset({%s})),)" % ", ".join(repr(x) for x in NESTS[d["nest"]])
     if d["kwd"] is not None:
         params += ", *, z=%d" % d["kwd"]
     L = []
@@ -202,6 +220,8 @@ def render_def(name, d, prog, pkg):
         L.append("    r.append(y)")
     if d["kwd"] is not None:
         L.append("    r.append(z)")
+    if d.get("nest") is not None:
+        L.append("    r.append(sorted(w[0][1]))")
     if d["lam"] is not None:
         L.append("    r.append((lambda q: q + %d)(0))" % d["lam"])
     for t, form in d["refs"]:
